@@ -389,6 +389,7 @@ pub fn check_cmd(args: CheckArgs) -> i32 {
             }
         }
         let cover_counts = CoverCounts::compute(&cover_bases);
+        let sweep = crate::plan::sweep_counts(&corpus, tier);
         println!(
             "census: {} generated symbols ({} pass the invariant filter, {} reach simplify), K0 = {}, K+ = {} (instrument failures {}), cover bases = {}",
             corpus.g.len(),
@@ -401,9 +402,9 @@ pub fn check_cmd(args: CheckArgs) -> i32 {
         );
         // 4. exploration
         let mut specs = if prop == "C17" {
-            planner.c17_stage_b(&corpus, &census_g, &kp, &cover_counts)
+            planner.c17_stage_b(&corpus, &census_g, &kp, &cover_counts, &sweep)
         } else {
-            planner.c16_stage_b(&corpus, &census_g, &kp, &cover_counts)
+            planner.c16_stage_b(&corpus, &census_g, &kp, &cover_counts, &sweep)
         };
         if let Some(m) = d.args.max_runs {
             specs.truncate(m);
@@ -588,6 +589,12 @@ fn write_evidence(d: &Driver, path: &Path, violations: i64, replays: &[Value], k
         "simplify::collapse::empty",
     ];
     let probes_at_zero: Vec<&str> = if hooks_compiled() { probes_expected.iter().cloned().filter(|p| !a.probes.contains_key(*p)).collect() } else { vec![] };
+    let table: std::collections::BTreeSet<String> = std::fs::read_to_string(format!("{}/src/data/euclideanInvariants.data", repo_path()))
+        .unwrap_or_default()
+        .split_whitespace()
+        .filter(|s| !s.is_empty() && !s.starts_with('#') && s.ends_with('/'))
+        .map(|s| s.to_string())
+        .collect();
     let (head, dirty) = git_head();
     let rule = "cases = simulated executions of the real library call (C17: is_euclidean(s); C16: simplify(X)) on a fresh thread whose RandomState keys, call history, input numbering/dual/cover/representation and (in steered runs) start-of-walk choices are drawn from SplitMix64(h(VERIF_SEED, property, run index)). distinct_nontrivial = number of distinct (input fingerprint, decision trace) pairs among runs that passed at least one hash-order decision with >= 2 eligible options (counted from the hook's decision log; 0 decisions or single-option decisions are trivial). Without the hook build it falls back to distinct (input fingerprint, output fingerprint) pairs of runs that reached simplify.";
     let distinct_nontrivial = if hooks_compiled() { a.nontrivial_traces.len() } else { a.deep_pairs.len() };
@@ -634,6 +641,7 @@ fn write_evidence(d: &Driver, path: &Path, violations: i64, replays: &[Value], k
             "inputs_by_representation": a.by_repr,
             "operations": a.by_op,
             "largest_input_chambers": a.in_size_max,
+            "space_group_table_entries_exercised_with_yes": {"seen": a.inv_seen.len(), "seen_and_in_table": a.inv_seen.iter().filter(|i| table.contains(*i)).count(), "table_entries": table.len(), "note": "orbifold invariant strings of yes-verdict runs (coverage instrument, rebuilt from public API), against the distinct entries of src/data/euclideanInvariants.data"},
             "certificates_verified": a.certificates_ok,
             "intermediate_states_checked": a.states_checked,
             "runs_with_recorded_states": a.runs_with_states,
